@@ -15,6 +15,11 @@ CLAIMED = {
    note="Assumed: (*rand.Rand).Intn returns a value in [0,n); finite-sum commutativity (total weight equals the prefix sum of any enumeration) as a trusted lemma; totalClusterWeight equals the sum of the entries and is positive (precondition established by getWeightedClusterEntry, not yet under contract). Not covered yet: the EDF host scheduler lag bound (second sentence of the statement).",
    technique="contract-based deductive verification (WP over go/ssa, SMT) with ghost enumeration of the map and prefix-sum spec functions",
    design="5/C06"),
+ "C10": dict(
+   text="Proof level on the accounting kernels: the circuit-breaker resource (Increase is +1, Decrease is -1 exactly when a limit is configured, CanCreate trips exactly at the threshold) and the retry state of a request (ghost holder(r) = #Increase - #Decrease of the retries resource performed through r; invariant holder(r) == 1 exactly while the state records a held slot; retry() ends holding one slot iff it answers ShouldRetry, reset() always ends holding none) are verified for all inputs and all call orders allowed by the invariant.",
+   note="Assumed: interface contracts of types.Resource (ghost count of calls), getters of ClusterInfo/ResourceManager and metrics are effect-free. Not covered yet: pool NewStream/OnDestroyStream pairing, downstream gauges (requestMetrics), histories across goroutines.",
+   technique="contract-based deductive verification (WP over go/ssa, SMT) with ghost call-balance counters",
+   design="5/C10"),
 }
 NA = {
  "C11": "quantifies over the arrival time of a signal relative to in-flight requests across two processes (fd passing, drain timers): crash points and schedules of the whole runtime; no function whose pre/postcondition states it (DESIGN.md section 6)",
